@@ -130,6 +130,27 @@ class Vec:
         return f"Vec({self.items})"
 
 
+class GenVal:
+    """A generator object: its items can be consumed once."""
+    def __init__(self, items):
+        self.items = list(items)
+        self.pos = 0
+
+    def take_all(self):
+        out = self.items[self.pos:]
+        self.pos = len(self.items)
+        return out
+
+    def __repr__(self):
+        return f"<generator {len(self.items) - self.pos} left>"
+
+
+class ReObj:
+    """A compiled regular expression / a match object of the standard library (concrete strings only)."""
+    def __init__(self, obj):
+        self.obj = obj
+
+
 class SymRaise(Exception):
     """Concrete (unconditional) exception travelling through the interpreter."""
     def __init__(self, exc, msg="", site=None):
